@@ -79,6 +79,13 @@ def check(h, baseline=None):
         if r.invoke is not None and r.exc is None:
             triples.setdefault((r.c, r.peer, r.invoke), []).append(r)
     ambiguous_clients = set()
+    stale_rx = {}
+    for f in w.rx:
+        if f.get('wseq') is None:
+            continue
+        n, a = txn.decode_lan_frame(f['octets'])
+        if a is not None and a.get('invoke') is not None and a['type'] in (wire.T_CACK, wire.T_SACK, wire.T_ERROR, wire.T_REJECT, wire.T_ABORT, wire.T_SEGACK):
+            stale_rx.setdefault((f['node'], f['src']), []).append({'seq': f['seq'], 'wseq': f['wseq'], 'inv': a['invoke']})
     for r in h.reqs:
         # an earlier use of the same (peer, invoke id) that the client gave up on locally (abort / cancel /
         # no outcome) may still be in progress at the server: its frames are indistinguishable from this
@@ -89,6 +96,16 @@ def check(h, baseline=None):
                 qo = txn.outcomes_of(h, q)
                 if not qo or qo[0][2] in ('abort', 'exc') or q.cancel_seq is not None:
                     ambiguous = True
+        if not ambiguous and r.act0 is not None and r.invoke is not None and len(triples.get((r.c, r.peer, r.invoke), [])) > 1:
+            # a late NETWORK copy of a frame of an earlier exchange with the same (peer, invoke id) -- on the wire before
+            # this request was even activated -- delivered while this one is live: same indistinguishability
+            ro = txn.outcomes_of(h, r)
+            rend = ro[0][0] if ro else 1 << 60
+            for f in stale_rx.get((r.c, r.peer), ()):
+                if f['wseq'] < r.act0 <= f['seq'] <= rend and f['inv'] == r.invoke:
+                    ambiguous = True
+                    w.probe('same_id_stale_frame_ambiguous')
+                    break
         if ambiguous:
             w.probe('same_id_reuse_ambiguous')
             ambiguous_clients.add(r.c)
